@@ -467,6 +467,27 @@ def check(run, pid, families, extra=None):
         if sim.violations:
             raise vlib.Infra("design model Gldap.tla violates %s in simulation (model-only: fix the spec)" % sim.violations[0]["name"])
     scenarios, stats = run_families(run, families, cap=1200 if q else None)
+    if pid == "C06":
+        # an application that registers a further route while a handler is blocked (say, a feature switched on at run time):
+        # a third of the scenarios in which something is sent while a handler is held. Not part of C15's schedules
+        # (C15 assumes routes registered before Run).
+        n = 0
+        for s in scenarios:
+            if s["cfg"].get("family") not in ("general", "pipeline", "long") or s["cfg"].get("procs"):
+                continue
+            held, hit = set(), False
+            for e in s["behaviour"]:
+                if e["a"] == "send" and held:
+                    hit = True
+                if e["a"] == "send" and e["hold"]:
+                    held.add((e["c"], e["i"]))
+                if e["a"] in ("release", "panic"):
+                    held.discard((e["c"], e["i"]))
+            if hit:
+                n += 1
+                if n % 3 == 0:
+                    s["cfg"]["late_route"] = "1"
+        stats["late_route"] = {"behaviours": n // 3, "variant": True}
     rows, trace = scen.replay(run, scenarios, par=8)
     # scenarios whose timed steps ran late (a read deadline fired before the model's "timeout" step): not judged
     late = {r.get("scen") for r in rows if r["ev"] == "desync"}
